@@ -44,10 +44,12 @@ BOUNDS = {
              'types: all pairs of 1-parameter lists over {Any, A, B, C, AC=(A, C)} x nullable x 4 layerings, both paths; '
              'Super: override foo(x: Any|A, base: Super(method=None|True|False)) of each kind calling base(x) / base() in the nearer layer, '
              '1-2 base overloads from 4 lists x 3 kinds in one or two farther layers, function and method syntax, both paths; '
-             '@no_kwargs: 9 lists, flags (T), (T,T), (T,F), (F,T) x 3 layerings; triples: 7 lists cubed x 5 layerings',
+             '@no_kwargs: 9 lists, flags (T), (T,T), (T,F), (F,T) x 3 layerings; triples: 7 lists cubed x 5 layerings; '
+             'composite contexts: 7 lists cubed, two overloads in the two members of a MultiContext x member exclusive flags (F,F) (T,F) (F,T) (T,T) '
+             'x both member orders x {first member, both members} holding the parent chain, above a third overload in an ordinary layer; 7 lists squared x 4 layerings with the chain linked in front of the library by LinkedContext',
     'thorough': 'singles: 10 shapes x 17 extensions (also typed/lazy *r, typed **kw, lazy kW) x 3 kinds x 349 calls '
                 '(constants 1, \'k\', kw); pairs: 157 lists squared x 4 layerings x 173 calls; kind mixing and @no_kwargs on 16 lists; '
-                'triples: 22 lists cubed x 5 layerings',
+                'triples: 22 lists cubed x 5 layerings; composite contexts on 16 lists',
 }
 
 SKIP = M.SKIP
@@ -503,6 +505,120 @@ def job_triples(tier, firsts):
     return res
 
 
+# ---------------------------------------------------------------------------
+# composite contexts: the same layers realised by MultiContext / LinkedContext
+# ---------------------------------------------------------------------------
+_reg_index = {}
+
+
+class OrderedMulti(R.contexts.MultiContext):
+    """MultiContext whose merged overload set is enumerated in registration order
+    (the merge itself - which members are consulted, what makes the layer
+    exclusive - is the library's)."""
+
+    def get_functions(self, name, predicate=None, use_convention=False):
+        found, exclusive = super(OrderedMulti, self).get_functions(name, predicate, use_convention)
+        return sorted(found, key=lambda fd: _reg_index.get(id(fd), 0)), exclusive
+
+
+def build_multi(members, far, order, parents='first'):
+    """Nearest layer = MultiContext of `members` ((exclusive, overloads), ...) listed
+    in `order`, above the ordinary layers `far`, above the shared base.  A
+    MultiContext takes its parent from its members: with parents='first' only the
+    first member has the chain as its parent, with 'both' every member has (the
+    library then merges the two equal parents into another MultiContext)."""
+    ctx = base()
+    for exclusive, overloads in reversed(far):
+        ctx = R.OrderedContext(ctx)
+        for o in overloads:
+            ctx.register_function(R.definition(o, R.CLASSES5), exclusive=exclusive)
+    parts = []
+    for n, (exclusive, overloads) in enumerate(members):
+        m = R.OrderedContext(ctx if parents == 'both' or n == 0 else None, convention=R.CONVENTION)
+        for o in overloads:
+            fd = R.definition(o, R.CLASSES5)
+            _reg_index.setdefault(id(fd), len(_reg_index))
+            m.register_function(fd, exclusive=exclusive)
+        parts.append(m)
+    return OrderedMulti([parts[i] for i in order]).create_child_context()
+
+
+def build_linked(layers):
+    """The chain of `layers` built without a parent and linked in front of the shared base."""
+    ctx = None
+    for exclusive, overloads in reversed(layers):
+        ctx = R.OrderedContext(ctx, convention=R.CONVENTION)
+        for o in overloads:
+            ctx.register_function(R.definition(o, R.CLASSES5), exclusive=exclusive)
+    return R.contexts.LinkedContext(base(), ctx).create_child_context()
+
+
+def run_on(res, fid, ctx, layers, calls, text=True):
+    """run_family on a context built by the caller (layers = what the model is told)."""
+    for ci, call in calls:
+        exp = expected(layers, call)
+        ood = undetermined(layers, call, exp)
+        for path in paths_for(layers, call, text):
+            res.case((fid, ci, path))
+            obs = observe(ctx, call, path)
+            res.evaluations += 1
+            if ood:
+                res.out_of_domain += 1
+                continue
+            res.transitions += 1
+            if exp[0][1] != M.UNKNOWN:
+                res.nontrivial += 1
+            res.outcomes['%s %s %s' % (fid[0], path, outcome_class(exp[0]))] += 1
+            if obs != exp:
+                res.fail('%s: %s' % (fid[0], classify(layers, call, path, obs, exp)),
+                         {'composite': fid, 'layers': layers, 'call': call, 'path': path,
+                          'text': R.text_of(call) if R.spellable(call) else None},
+                         'observed %r expected %r' % (obs, exp))
+
+
+MULTI_FLAGS = ((False, False), (True, False), (False, True), (True, True))
+
+
+def composite_plists(tier):
+    return small_plists(tier)[:7] if tier == 'quick' else small_plists(tier)
+
+
+def job_multi(tier, firsts):
+    """Two overloads in two members of one MultiContext (every exclusive-flag pair,
+    both member orders) above a layer holding a third: the members form ONE layer,
+    which is exclusive as soon as one member registered the name exclusively."""
+    res = Result()
+    calls = list(enumerate(call_set(tier, 'small')))
+    pls = composite_plists(tier)
+    for i in firsts:
+        for j in range(len(pls)):
+            for k in range(len(pls)):
+                o = tuple(overload(q, pls[x], kind_for(pls[x])) for q, x in enumerate((i, j, k)))
+                for flags in MULTI_FLAGS:
+                    members = ((flags[0], (o[0],)), (flags[1], (o[1],)))
+                    far = ((False, (o[2],)),)
+                    for order in ((0, 1), (1, 0)):
+                        near = (any(flags), tuple(o[m] for m in order))
+                        for parents in ('first', 'both'):
+                            run_on(res, ('multi', i, j, k, flags, order, parents), build_multi(members, far, order, parents),
+                                   (near,) + far, calls, text=False)
+    return res
+
+
+def job_linked(tier, firsts):
+    """The 2-overload layerings with the whole chain linked in front of the library by LinkedContext."""
+    res = Result()
+    calls = list(enumerate(call_set(tier, 'small')))
+    pls = composite_plists(tier)
+    for name, lay in sorted(layerings(2).items()):
+        for i in firsts:
+            for j in range(len(pls)):
+                o = (overload(0, pls[i], kind_for(pls[i])), overload(1, pls[j], kind_for(pls[j])))
+                layers = lay(o)
+                run_on(res, ('linked', name, i, j), build_linked(layers), layers, calls, text=name == 'same')
+    return res
+
+
 def strides(n, k):
     """k interleaved index lists over range(n): similar cost per job although low indices pair with more partners."""
     return [list(range(n))[i::k] for i in range(min(k, n))]
@@ -523,6 +639,9 @@ def jobs(tier, seed):
         out.append(('nokw-%02d' % n, 'job_nokw', (tier, idx)))
     for n, idx in enumerate(strides(len(triple_plists(tier)), 7 if quick else 22)):
         out.append(('triples-%02d' % n, 'job_triples', (tier, idx)))
+    for n, idx in enumerate(strides(len(composite_plists(tier)), 7 if quick else 16)):
+        out.append(('multi-%02d' % n, 'job_multi', (tier, idx)))
+    out.append(('linked', 'job_linked', (tier, list(range(len(composite_plists(tier)))))))
     return out
 
 
@@ -536,7 +655,17 @@ def replay(case):
     layers = _tuples(case['layers'])
     call = _tuples(case['call'])
     exp = expected(layers, call)
-    ctx = R.build_layers(layers, R.CLASSES5, base())
+    comp = case.get('composite')
+    if comp and comp[0] == 'multi':
+        flags, order = comp[4], comp[5]
+        near, far = layers[0], layers[1:]
+        byorder = dict(zip(order, near[1]))
+        members = tuple((bool(flags[m]), (byorder[m],)) for m in (0, 1))
+        ctx = build_multi(members, far, tuple(order), comp[6])
+    elif comp and comp[0] == 'linked':
+        ctx = build_linked(layers)
+    else:
+        ctx = R.build_layers(layers, R.CLASSES5, base())
     obs = observe(ctx, call, case['path'])
     return {'observed': repr(obs), 'expected': repr(exp), 'ok': obs == exp,
             'text': R.text_of(call) if R.spellable(call) else None}
